@@ -31,6 +31,23 @@ CHECKS = {
     ),
 }
 
+CHECKS["C11"] = dict(
+    engine="tlv_mc",
+    category="exploration",
+    design="DESIGN.md section 4, C11",
+    technique="bounded-exhaustive enumeration of pair lists x value kinds x constructors x sinks on the real encoder, independent layout function + MessageView read-back as oracle",
+    text="Every pair list with 0..4 (quick) / 0..5 (thorough) pairs over 6 tags (including pairs whose byte order differs from numeric order) and 3 value lengths, in every order, for six value kinds (&[u8], &str, Cow bytes/str with every borrowed/owned mask, nested MessageWrapper two levels deep, MessageView), through new / new_from_slice / new_from_sorted and into three sinks (OwningIovec, &mut reborrow, hcobs::Encoder) is encoded by the real code; bytes are compared with an independent layout function, rough_tlv_len with the emitted length, and MessageView must return the same pairs. Long lists (every periodic tag pattern of period <= 4 at every length 0..72) cover sort stability beyond the small-sort threshold; claimed-length values cover the i32::MAX limits.",
+    note="The pair-count > i32::MAX rejection is not run (needs an 8 GiB slice). Exhaustive only within the stated finite product.",
+)
+CHECKS["C12"] = dict(
+    engine="tlv_mc",
+    category="exploration",
+    design="DESIGN.md section 4, C12",
+    technique="bounded-exhaustive enumeration of byte buffers (word alphabet x length x trailing bytes) on the real MessageView, reference predicate in u128 arithmetic + reference layout as oracle",
+    text="Every buffer of <= 7 (quick) / 8 (thorough) little-endian words over a 13-word alphabet chosen to hit every header shape (N = 0..8, N beyond the buffer, N near 2^29 / 2^31 / 2^32, equal / decreasing / out-of-range offsets and tags, 0xFF vs 0x100) with 0-3 trailing bytes, plus one more word over an 8-word alphabet, is given to MessageView::new (borrowed and owned storage). Accept/reject must equal the format predicate; on accepted views len/is_empty/tags/iter/get/get_value/find/find_tag/tags_match_exactly are compared with the reference layout for indices 0..N+2 and usize::MAX, by position and content; nothing may panic.",
+    note="Values outside the word alphabet are not tried; the predicate only compares words with each other and with the buffer length, and the alphabet has representatives on both sides of each comparison.",
+)
+
 ALL = ["C%02d" % i for i in range(1, 21)]
 
 NOT_YET = "check not built yet (work in progress; see DESIGN.md section 4 for the planned bounded-exhaustive formulation)"
